@@ -82,3 +82,57 @@ Definition model_out (c : case) :=
   (string_of_list_ascii (model_text c),
    option_map (fun r => match r with (k, v, dt, lab) => (k, v, dt, string_of_list_ascii lab) end) (model_load c),
    [chk_text c; chk_load c; chk_roundtrip c; chk_kind c]).
+
+(** ** long records (more than 50000 samples) in sparse form: the number of lines of the file, its first two lines, and at a
+    sparse set of positions i (first, last, around every multiple of 50000 and 1000, random) the saved value, line 2+i of the file
+    and the loaded value.  The same comparisons as above, restricted to these positions. *)
+Definition model_header (n : Z) (dt : Q) : text := dec_int n ++ sp :: fmt_fixed 4 dt.
+(** (label, dt, npts, number of lines of the text, first line, second line, [(i, (signbit, v_i), line 2+i)]) *)
+Definition chk_long_text (c : string * Q * Z * Z * string * string * list (Z * (bool * Q) * string)) : bool :=
+  let '(label, dt, n, nlines, l0, l1, samples) := c in
+  Z.eqb nlines (n + 2) && text_eqb (txt l0) (txt label) && text_eqb (txt l1) (model_header n dt) &&
+  negb (Nat.eqb (List.length samples) 0) &&
+  forallb (fun s => let '(i, sv, line) := s in
+                    (0 <=? i)%Z && (i <? n)%Z && text_eqb (txt line) (fmt_fixed_sb (fst sv || Qltb' (snd sv) 0) 6 (snd sv))) samples.
+
+Record long_load := {
+  g_n : Z; g_dt : Q; g_label : string; g_entry : nat; g_astype : string; g_m : Q; g_want_label : bool;
+  g_l0 : string; g_l1 : string;
+  g_samples : list (Z * Q * string * Q);      (* (i, saved v_i, line 2+i of the file, loaded value at i) *)
+  h_kind : nat; h_len : Z; h_npts : Z; h_dt : Q; h_label : string }.
+Definition read_dt (h : text) : option Q :=
+  match tokens h with _ :: tok :: _ => option_map round_b64 (parse_float tok) | _ => None end.
+Definition chk_long_load (c : long_load) : bool :=
+  let scaled := match g_entry c with 2%nat | 3%nat => true | _ => false end in
+  let m := if scaled then g_m c else 1%Q in
+  let exp_kind := match g_entry c with
+                  | 0 => 0 | 2 => 1 | 3 => 2
+                  | _ => if text_eqb (txt (g_astype c)) (txt "signal") then 1
+                         else if text_eqb (txt (g_astype c)) (txt "acc_sig") then 2 else 3
+                  end%nat in
+  Nat.eqb (h_kind c) exp_kind &&
+  (Nat.eqb exp_kind 3 ||
+   (Z.eqb (h_len c) (g_n c) && Z.eqb (h_npts c) (g_n c) &&
+    match read_dt (txt (g_l1 c)) with
+    | Some d => Qeqb d (h_dt c) && Qleb (Qabs (h_dt c - g_dt c)) ((1 # 20000) + 4 * u53 * (Qabs (g_dt c) + 1))
+    | None => false
+    end &&
+    text_eqb (txt (h_label c))
+             (match g_entry c with
+              | 0%nat => []
+              | 3%nat => if g_want_label c then txt (g_l0 c) else default_label
+              | _ => default_label end) &&
+    (negb (Nat.eqb (g_entry c) 3 && g_want_label c) || text_eqb (txt (g_l0 c)) (txt (g_label c))) &&
+    negb (Nat.eqb (List.length (g_samples c)) 0) &&
+    forallb (fun s => let '(i, v, line, o) := s in
+                      (0 <=? i)%Z && (i <? g_n c)%Z &&
+                      match option_map round_b64 (parse_float (field0 (txt line))) with
+                      | Some y => Qeqb (if scaled then round_b64 (y * m) else y) o
+                      | None => false
+                      end && vals_close m [v] [o]) (g_samples c))).
+
+(** one entry point for both kinds of sparse cases (one run file) *)
+Inductive long_any :=
+| LText (c : string * Q * Z * Z * string * string * list (Z * (bool * Q) * string))
+| LLoad (c : long_load).
+Definition chk_long (c : long_any) : bool := match c with LText c => chk_long_text c | LLoad c => chk_long_load c end.
